@@ -3,6 +3,7 @@
 From Coq Require Import List NArith ZArith Bool Arith String.
 Import ListNotations.
 Require Import Scan Parse Construct ConstructLemmas.
+Require Flatten.
 
 (* KIND C14_equal_keys_first_position : U *)
 (* inserting a key equal to one already present keeps the existing key object and its position; a new key goes to the end *)
@@ -38,6 +39,57 @@ Example C14_nonvacuous :
   fresh_keys [(PStr [97]%N, PInt 1); (PInt 1, PInt 2)] [] = true /\ has_key (PFloat (FFin false 1 0)) [(PInt 1, PNone)] = true /\
   dict_set (PBool true) (PInt 9) [(PInt 1, PInt 2); (PStr [97]%N, PInt 3)] = [(PInt 1, PInt 9); (PStr [97]%N, PInt 3)].
 Proof. vm_compute. repeat split; reflexivity. Qed.
+
+(* KIND C14_flatten_without_merge_is_identity : U *)
+(* flatten_mapping (the in-place model of constructor.py:180-213), any node store, any number of pairs: a mapping whose keys are
+   neither `<<` nor `=` keys is left exactly as it is *)
+Theorem C14_flatten_without_merge_is_identity : forall f id s n,
+  nth_error (nodes s) id = Some n -> Flatten.plain_items (nodes s) (map_items n) -> List.length (map_items n) < f + f ->
+  flatten (S f) id s = LOk (tt, s).
+Proof. exact Flatten.flatten_without_merge_is_identity. Qed.
+Eval vm_compute in "ASSUME:C14_flatten_without_merge_is_identity"%string. Print Assumptions C14_flatten_without_merge_is_identity.
+(* KIND C14_flatten_one_merge : U *)
+(* one `<<` key (anywhere among any number of other pairs) whose value is a mapping without merge keys of its own: the merged pairs are
+   placed IN FRONT of the mapping's own pairs, the `<<` pair is removed, no other node changes.  Inserted in that order the own keys
+   override the merged ones (C14_equal_keys_last_value_wins) and keep their own position only if the key is new
+   (C14_equal_keys_first_position) *)
+Theorem C14_flatten_one_merge : forall f' id s n pre k v post kn vn,
+  nth_error (nodes s) id = Some n -> map_items n = (pre ++ (k, v) :: post)%list ->
+  Flatten.plain_items (nodes s) pre -> Flatten.plain_items (nodes s) post ->
+  nth_error (nodes s) k = Some kn -> str_eqb (n_tag kn) t_merge = true ->
+  v <> id -> nth_error (nodes s) v = Some vn -> (exists l, n_kind vn = NMap l) -> Flatten.plain_items (nodes s) (map_items vn) ->
+  List.length (map_items vn) < f' + f' -> List.length pre + List.length post + 2 <= S f' + S f' ->
+  flatten (S (S f')) id s = LOk (tt, Flatten.upd s id (with_items n (map_items vn ++ pre ++ post)%list)).
+Proof. exact Flatten.flatten_one_merge. Qed.
+Eval vm_compute in "ASSUME:C14_flatten_one_merge"%string. Print Assumptions C14_flatten_one_merge.
+(* KIND C14_flatten_merge_list : U *)
+(* one `<<` key whose value is a LIST of mappings (any number, none with merge keys of its own): the pairs of the LAST mapping of the
+   list come first, then the earlier ones, then the own pairs - an earlier source overrides a later one, the own keys override all *)
+Theorem C14_flatten_merge_list : forall f' id s n pre k v post kn vn subs,
+  nth_error (nodes s) id = Some n -> map_items n = (pre ++ (k, v) :: post)%list ->
+  Flatten.plain_items (nodes s) pre -> Flatten.plain_items (nodes s) post ->
+  nth_error (nodes s) k = Some kn -> str_eqb (n_tag kn) t_merge = true ->
+  v <> id -> nth_error (nodes s) v = Some vn -> n_kind vn = NSeq subs -> ~ In id subs ->
+  (forall x, In x subs -> Flatten.plain_map_at (nodes s) (f' + f') x) ->
+  List.length pre + List.length post + 2 <= S f' + S f' ->
+  flatten (S (S f')) id s = LOk (tt, Flatten.upd s id (with_items n (List.concat (rev (map (Flatten.items_at (nodes s)) subs)) ++ pre ++ post)%list)).
+Proof. exact Flatten.flatten_merge_list. Qed.
+Eval vm_compute in "ASSUME:C14_flatten_merge_list"%string. Print Assumptions C14_flatten_merge_list.
+(* KIND C14_flatten_nonvacuous : F *)
+(* `{a: _, <<: {p: _}, b: _}` in a concrete node store: the pairs become [p; a; b]; and a `<<: [m1, m2]` list gives [m2's; m1's; own] *)
+Example C14_flatten_nonvacuous :
+  let m0 := {| m_index := 0; m_line := 0; m_col := 0 |} in
+  let sc t := {| n_tag := t; n_kind := NScalar [97%N] SPlain; n_start := m0 |} in
+  let mp l := {| n_tag := t_map; n_kind := NMap l; n_start := m0 |} in
+  let sq l := {| n_tag := t_seq; n_kind := NSeq l; n_start := m0 |} in
+  let st1 := [mp [(1, 2); (3, 4); (5, 6)]; sc t_str; sc t_str; sc t_merge; mp [(7, 8)]; sc t_str; sc t_int; sc t_str; sc t_str] in
+  let st2 := [mp [(1, 2); (3, 4)]; sc t_str; sc t_str; sc t_merge; sq [5; 6]; mp [(7, 8)]; mp [(9, 10)]; sc t_str; sc t_str; sc t_str; sc t_str] in
+  let k ns := {| nodes := ns; hp := []; cache := []; recursive := []; gens := [] |} in
+  match flatten 6 0 (k st1), flatten 6 0 (k st2) with
+  | LOk (_, s1), LOk (_, s2) => option_map map_items (nth_error (nodes s1) 0) = Some [(7, 8); (1, 2); (5, 6)] /\
+                                option_map map_items (nth_error (nodes s2) 0) = Some [(9, 10); (7, 8); (1, 2)]
+  | _, _ => False end.
+Proof. vm_compute. split; reflexivity. Qed.
 
 (* PARTIAL: flatten_spec / dict_of_flatten (merge precedence, recursion), flatten_idempotent (shared sources) and the shape errors are
    not proved on the in-place flatten model; they are decided by the construct correspondence and by the direct run against an independent
